@@ -3,9 +3,10 @@
   Property theorems only; they hold for every cell type and every temporal extent.
 -/
 import PV.Model.Corr
+import PV.Proofs.CorrLemmas
 
 namespace PV
-open Corr
+open Corr Scalar
 
 variable {β : Type}
 
@@ -32,5 +33,160 @@ theorem c15_ofCells_cell (cells : List (Option β)) (a b t : Nat) :
         simp at hv
         subst hv
         simp
+
+/-- the window builder behind every derivative / effective-mass variant: `padL` undefined slices,
+    then `n` slices `f(lo), f(lo+1), ...`, then `padR` undefined slices -/
+theorem c15_build_ok (T lo n padL padR : Nat) (f : Nat → Option β) (r : Corr β)
+    (h : Corr.build T lo n padL padR f = .ok r) :
+    r.T = padL + n + padR ∧ r.N = 1 ∧
+    ∀ t, r.cell? t = (if padL ≤ t ∧ t < padL + n then f (lo + (t - padL)) else none) := by
+  unfold Corr.build at h
+  simp only [] at h
+  split at h
+  · cases h
+  cases h
+  refine ⟨by simp [Corr.T, ofCells]; omega, rfl, fun t => ?_⟩
+  rw [ofCells_cell?]
+  simp only [List.length_map, List.length_range]
+  split
+  · rename_i hc
+    have : t - padL < n := by omega
+    simp [List.getD_eq_getElem?_getD, List.getElem?_map, List.getElem?_range this]
+  · rfl
+
+
+/-- C15 (never raises while something is defined): the builder fails exactly when every output
+    slice is undefined -/
+theorem c15_build_fails_iff (T lo n padL padR : Nat) (f : Nat → Option β) :
+    (∃ e, Corr.build (β := β) T lo n padL padR f = .error e) ↔ ∀ k, k < n → f (lo + k) = none := by
+  unfold Corr.build
+  simp only []
+  constructor
+  · rintro ⟨e, h⟩ k hk
+    split at h
+    · rename_i hall
+      simp at hall
+      exact hall k hk
+    · cases h
+  · intro hall
+    refine ⟨.allNone, ?_⟩
+    rw [if_pos]
+    simp
+    exact hall
+
+
+section formulas
+variable [Elem β]
+
+/-- C15 (symmetric derivative): ½(C(t+1) - C(t-1)) on 1 ≤ t ≤ T-2, undefined exactly when a
+    referenced slice is undefined, and at t = 0, T-1 -/
+theorem c15_deriv_symmetric (a r : Corr β) (hT : 2 ≤ a.T) (h : a.deriv "symmetric" = .ok r) :
+    r.T = a.T ∧ ∀ t, t < a.T → r.cell? t =
+      (if 1 ≤ t ∧ t + 1 < a.T then
+        (match a.cell? (t - 1), a.cell? (t + 1) with
+         | some m, some p => some ((1 / 2 : β) * (p - m))
+         | _, _ => none)
+       else none) := by
+  unfold Corr.deriv at h
+  split at h
+  · cases h
+  simp only [] at h
+  obtain ⟨h1, -, h3⟩ := c15_build_ok _ _ _ _ _ _ _ h
+  refine ⟨by omega, fun t ht => ?_⟩
+  rw [h3]
+  by_cases hc : 1 ≤ t ∧ t + 1 < a.T
+  · rw [if_pos hc, if_pos (by omega)]
+    have : 1 + (t - 1) = t := by omega
+    rw [this]
+    cases a.cell? (t - 1) <;> cases a.cell? (t + 1) <;> rfl
+  · rw [if_neg hc, if_neg (by omega)]
+
+
+/-- C15 (improved derivative): (C(t-2) - 8C(t-1) + 8C(t+1) - C(t+2))/12 on 2 ≤ t ≤ T-3 -/
+theorem c15_deriv_improved (a r : Corr β) (hT : 4 ≤ a.T) (h : a.deriv "improved" = .ok r) :
+    r.T = a.T ∧ ∀ t, t < a.T → r.cell? t =
+      (if 2 ≤ t ∧ t + 2 < a.T then
+        (match a.cell? (t - 2), a.cell? (t - 1), a.cell? (t + 1), a.cell? (t + 2) with
+         | some m2, some m1, some p1, some p2 => some ((1 / 12 : β) * (m2 - 8 * m1 + 8 * p1 - p2))
+         | _, _, _, _ => none)
+       else none) := by
+  unfold Corr.deriv at h
+  split at h
+  · cases h
+  simp only [] at h
+  obtain ⟨h1, -, h3⟩ := c15_build_ok _ _ _ _ _ _ _ h
+  refine ⟨by omega, fun t ht => ?_⟩
+  rw [h3]
+  by_cases hc : 2 ≤ t ∧ t + 2 < a.T
+  · rw [if_pos hc, if_pos (by omega)]
+    have : 2 + (t - 2) = t := by omega
+    rw [this]
+    cases a.cell? (t - 2) <;> cases a.cell? (t - 1) <;> cases a.cell? (t + 1) <;> cases a.cell? (t + 2) <;> rfl
+  · rw [if_neg hc, if_neg (by omega)]
+
+
+/-- C15 (symmetric second derivative): C(t+1) - 2C(t) + C(t-1), undefined when ANY of the three
+    slices is undefined (including the central one) -/
+theorem c15_second_symmetric (a r : Corr β) (hT : 2 ≤ a.T) (h : a.secondDeriv "symmetric" = .ok r) :
+    r.T = a.T ∧ ∀ t, t < a.T → r.cell? t =
+      (if 1 ≤ t ∧ t + 1 < a.T then
+        (match a.cell? (t - 1), a.cell? t, a.cell? (t + 1) with
+         | some m, some x, some p => some (p - 2 * x + m)
+         | _, _, _ => none)
+       else none) := by
+  unfold Corr.secondDeriv at h
+  split at h
+  · cases h
+  simp only [] at h
+  obtain ⟨h1, -, h3⟩ := c15_build_ok _ _ _ _ _ _ _ h
+  refine ⟨by omega, fun t ht => ?_⟩
+  rw [h3]
+  by_cases hc : 1 ≤ t ∧ t + 1 < a.T
+  · rw [if_pos hc, if_pos (by omega)]
+    have : 1 + (t - 1) = t := by omega
+    rw [this]
+    cases a.cell? (t - 1) <;> cases a.cell? t <;> cases a.cell? (t + 1) <;> rfl
+  · rw [if_neg hc, if_neg (by omega)]
+
+
+/-- C15 (big symmetric second derivative): (C(t+2) - 2C(t) + C(t-2))/4 on 2 ≤ t ≤ T-3 -/
+theorem c15_second_big_symmetric (a r : Corr β) (hT : 4 ≤ a.T) (h : a.secondDeriv "big_symmetric" = .ok r) :
+    r.T = a.T ∧ ∀ t, t < a.T → r.cell? t =
+      (if 2 ≤ t ∧ t + 2 < a.T then
+        (match a.cell? (t - 2), a.cell? t, a.cell? (t + 2) with
+         | some m, some x, some p => some ((p - 2 * x + m) / 4)
+         | _, _, _ => none)
+       else none) := by
+  unfold Corr.secondDeriv at h
+  split at h
+  · cases h
+  simp only [] at h
+  obtain ⟨h1, -, h3⟩ := c15_build_ok _ _ _ _ _ _ _ h
+  refine ⟨by omega, fun t ht => ?_⟩
+  rw [h3]
+  by_cases hc : 2 ≤ t ∧ t + 2 < a.T
+  · rw [if_pos hc, if_pos (by omega)]
+    have : 2 + (t - 2) = t := by omega
+    rw [this]
+    cases a.cell? (t - 2) <;> cases a.cell? t <;> cases a.cell? (t + 2) <;> rfl
+  · rw [if_neg hc, if_neg (by omega)]
+
+
+/-- C15 (plateau by average): the mean of the defined slices of the inclusive range -/
+theorem c15_plateau_avg (a : Corr β) (lo hi : Nat) (x : β) (h : a.plateauAvg lo hi = .ok x) :
+    let xs := (List.range (hi + 1 - lo)).filterMap (fun k => a.cell? (lo + k))
+    xs ≠ [] ∧ x = Scalar.sum xs / ofNatS xs.length := by
+  intro xs
+  unfold Corr.plateauAvg at h
+  split at h
+  · cases h
+  simp only [] at h
+  split at h
+  · cases h
+  rename_i hne
+  cases h
+  exact ⟨by simpa [xs] using hne, rfl⟩
+
+end formulas
 
 end PV
